@@ -2,6 +2,7 @@ package props
 
 import (
 	"fmt"
+	"sort"
 
 	fpgo "github.com/TeaEntityLab/fpGo/v2"
 
@@ -218,6 +219,93 @@ func c04Direct(c *core.Ctx) {
 				}
 			}
 			_ = pi
+		}
+	}
+	// ---- 3. callbacks with memory, and sorts of elements that tie but can be told apart
+	for _, l := range [][]int{{1, 1, 2, 3, 2, 4}, {5}, {2, 2, 2}, {9, 8, 7, 9, 8, 7, 1}, {}} {
+		c.Eval(1)
+		c.DistinctAdd(1)
+		var want []int
+		seenW := map[int]bool{}
+		for _, x := range l {
+			if !seenW[x] {
+				seenW[x] = true
+				want = append(want, x)
+			}
+		}
+		var calls []int
+		seen := map[int]bool{}
+		firstOcc := func(x int, i int) bool {
+			calls = append(calls, i)
+			if seen[x] {
+				return false
+			}
+			seen[x] = true
+			return true
+		}
+		sg := fpgo.StreamFromArray(append([]int(nil), l...))
+		if got := sg.Filter(firstOcc).ToArray(); !eqSeq(got, want) || len(calls) != len(l) {
+			c.Violationf("direct:generic:Filter:stateful-predicate", map[string]any{"list": fmt.Sprint(l)}, "generic stream %v: Filter(first occurrence) gives %v, want %v; the predicate was asked at indices %v (once per element, in order)", l, got, want, calls)
+		}
+		calls, seen = nil, map[int]bool{}
+		si := fpgo.StreamForInterface.FromArray(toAny(l))
+		if got := fromAny(si.Filter(func(x interface{}, i int) bool { return firstOcc(x.(int), i) }).ToArray()); !eqSeq(got, want) || len(calls) != len(l) {
+			c.Violationf("direct:interface{}:Filter:stateful-predicate", map[string]any{"list": fmt.Sprint(l)}, "interface{} stream %v: Filter(first occurrence) gives %v, want %v; the predicate was asked at indices %v", l, got, want, calls)
+		}
+		calls, seen = nil, map[int]bool{}
+		var wantRej []int
+		{
+			s2 := map[int]bool{}
+			for _, x := range l {
+				if s2[x] {
+					wantRej = append(wantRej, x)
+				}
+				s2[x] = true
+			}
+		}
+		if got := sg.Reject(firstOcc).ToArray(); !eqSeq(got, wantRej) || len(calls) != len(l) {
+			c.Violationf("direct:generic:Reject:stateful-predicate", map[string]any{"list": fmt.Sprint(l)}, "generic stream %v: Reject(first occurrence) gives %v, want %v; the predicate was asked at indices %v", l, got, wantRej, calls)
+		}
+		if !eqSeq(sg.ToArray(), l) {
+			c.Violationf("direct:generic:Filter:receiver-changed", map[string]any{"list": fmt.Sprint(l)}, "receiver changed to %v", sg.ToArray())
+		}
+	}
+	type rec struct{ key, id int }
+	for _, n := range []int{2, 5, 12, 13, 16, 20, 26, 40, 100} {
+		c.Eval(1)
+		c.DistinctAdd(1)
+		in := make([]rec, n)
+		for i := range in {
+			in[i] = rec{key: (i * 7) % 4, id: i}
+		}
+		ref := append([]rec(nil), in...)
+		sort.SliceStable(ref, func(a, b int) bool { return ref[a].key < ref[b].key })
+		sg := fpgo.StreamFromArray(append([]rec(nil), in...))
+		got := sg.Sort(func(a, b rec) bool { return a.key < b.key }).ToArray()
+		same := len(got) == n
+		for i := 0; same && i < n; i++ {
+			same = got[i] == ref[i]
+		}
+		if !same {
+			c.Violationf("direct:generic:Sort:not-the-stable-order", map[string]any{"elements": n}, "generic stream of %d records with 4 distinct keys: Sort returns %v, the stable order is %v", n, got, ref)
+		}
+		ia := make([]interface{}, n)
+		for i := range in {
+			ia[i] = in[i]
+		}
+		gi := fpgo.StreamForInterface.FromArray(ia).Sort(func(a, b interface{}) bool { return a.(rec).key < b.(rec).key }).ToArray()
+		same = len(gi) == n
+		for i := 0; same && i < n; i++ {
+			same = gi[i].(rec) == ref[i]
+		}
+		if !same {
+			c.Violationf("direct:interface{}:Sort:not-the-stable-order", map[string]any{"elements": n}, "interface{} stream of %d records with 4 distinct keys: Sort returns %v, the stable order is %v", n, gi, ref)
+		}
+		for i, r := range sg.ToArray() {
+			if r != in[i] {
+				c.Violationf("direct:generic:Sort:receiver-changed", map[string]any{"elements": n}, "Sort changed the receiver")
+				break
+			}
 		}
 	}
 	c.Count("direct_probes.failing_callbacks_and_spread_arguments", 1)
